@@ -168,6 +168,12 @@ type Chain struct {
 	Assign    *Rec `json:"assign,omitempty"`
 	WithModel bool `json:"withmodel,omitempty"`
 
+	// Refused: an update or delete that ends up without any condition and without
+	// AllowGlobalUpdate: gorm must refuse it with ErrMissingWhereClause, dry or not, and send nothing.
+	// EmptyCond: a condition that vanishes is given all the same: "struct" = Where(&X{}), "map" = Where(map{}).
+	Refused   bool   `json:"refused,omitempty"`
+	EmptyCond string `json:"emptycond,omitempty"`
+
 	Distinct bool `json:"distinct,omitempty"` // Distinct() before Select
 	// AllowGlobal: the chain starts with Session(&Session{AllowGlobalUpdate: true})
 	AllowGlobal bool `json:"allowglobal,omitempty"`
@@ -402,6 +408,12 @@ func (c *Chain) String() string {
 		}
 	}
 	b.WriteString(condsString(c.Conds))
+	switch c.EmptyCond {
+	case "struct":
+		b.WriteString(".Where(&" + c.Base + "{})")
+	case "map":
+		b.WriteString(".Where(map{})")
+	}
 	if c.Group != "" {
 		b.WriteString(".Group(" + c.Group + ")")
 	}
